@@ -22,4 +22,4 @@ def obligations(tier, seed):
         Ob("bitrev", func="h_rev", unwind=20, desc="bit reversal tables == reference", encodes=["vbi_rev8", "vbi_rev16"], bounds="none", timeout=120, **H),
     ]
     p = packet_obs()
-    return prim + [p[k] for k in ("pagelink", "pagelink_any", "mot", "pop", "x27", "x2829", "ait", "lop_parity", "lop_parity_x26", "header", "header_badpage", "header_timefill", "addr_error", "rows")]
+    return prim + [p[k] for k in ("pagelink", "pagelink_any", "mot", "pop", "x27", "ait", "lop_parity", "lop_parity_x26", "header", "header_badpage", "header_timefill", "addr_error", "rows")]
